@@ -17,6 +17,7 @@ pub struct Worker {
 
 /// wall-clock guard for one request: a hang of the *machinery* (exit 2 — never a violation)
 pub const REQUEST_TIMEOUT_S: u64 = 120;
+pub const RECYCLE_AFTER: u64 = 6000;
 
 #[derive(Debug)]
 pub struct WorkerError(pub String);
@@ -75,16 +76,27 @@ impl Worker {
     }
 
     pub fn request(&mut self, req: &Value) -> Result<Value, WorkerError> {
+        self.request_within(req, REQUEST_TIMEOUT_S)
+    }
+
+    /// a request that legitimately needs long (the 200 000-element size ramps of C02: ~20 MB artefacts parsed 12 times)
+    pub fn request_within(&mut self, req: &Value, timeout_s: u64) -> Result<Value, WorkerError> {
+        // a long-lived node process accumulates compiled code (tens of thousands of `new Function` / `vm.Script`): recycle
+        // it now and then; requests are pure functions of their input, so this is invisible to the checks
+        if self.requests >= RECYCLE_AFTER {
+            let fresh = Worker::spawn()?;
+            *self = fresh;
+        }
         let mut line = serde_json::to_string(req).map_err(|e| WorkerError(e.to_string()))?;
         line.push('\n');
         self.stdin.write_all(line.as_bytes()).map_err(|e| WorkerError(format!("write to worker: {}", e)))?;
         self.stdin.flush().map_err(|e| WorkerError(format!("flush: {}", e)))?;
-        let resp = match self.lines.recv_timeout(Duration::from_secs(REQUEST_TIMEOUT_S)) {
+        let resp = match self.lines.recv_timeout(Duration::from_secs(timeout_s)) {
             Ok(Ok(l)) => l,
             Ok(Err(e)) => return Err(WorkerError(format!("read from worker: {}", e))),
             Err(RecvTimeoutError::Timeout) => {
                 let _ = self.child.kill();
-                return Err(WorkerError(format!("worker did not answer within {} s (killed)", REQUEST_TIMEOUT_S)));
+                return Err(WorkerError(format!("worker did not answer within {} s (killed)", timeout_s)));
             }
             Err(RecvTimeoutError::Disconnected) => return Err(WorkerError("worker closed its stdout (crashed?)".into())),
         };
